@@ -38,6 +38,11 @@ func (w *hWriter) Write(p []byte) (int, error) {
 	k := w.calls
 	w.calls++
 	vfAssert("C19.no-write-after-error", vfNot(w.failed))
+	if w.failed {
+		// already a violation (reported above): fail again without forking, so
+		// that a tree that keeps writing does not multiply the paths
+		return 0, hErr
+	}
 	if k >= len(hCallNames) {
 		vfCut("more than 50 Write calls")
 	}
